@@ -181,6 +181,9 @@ structure State where
   phase : Phase := .loading
   launches : List (Obj × Nat) := []            -- ghost: every submission (object, incarnation)
   resets : List (Obj × Nat) := []              -- ghost: every restart-time reset
+  reopened : Bool := false                     -- ghost: a restart gave a finished node a new fork
+  full : Bool := false                         -- `Config.FullStageReset` (constant of a run)
+  wipedAtLoad : List Nat := []                 -- nodes whose state was Failed or Running right after the last re-attach
   deriving Repr, Inhabited
 
 def State.kind (s : State) (n : Nat) : Kind := ((s.nodes[n]?).map (·.kind)).getD .pipeline
@@ -355,13 +358,21 @@ def launchOk (s : State) (o : Obj) : Bool :=
      else allChunksComplete s o.n o.f)
   | .fork => false
 
-/-- `Pipestance.Reset` → `checkedReset` (state failed), `RestartLocalJobs` →
+/-- Default mode: `Pipestance.Reset` → `checkedReset` (state failed), `RestartLocalJobs` →
 `restartQueuedLocal` (`_queued_locally` present) / `restartLocal` (queued, or
-running with a dead pid); all look at the freshly loaded cache = the directory. -/
+running with a dead pid); all look at the freshly loaded cache = the directory.
+`FullStageReset` mode (local job mode): `Node.reset` removes the whole directory of
+every node whose state after re-attaching was Running (`Runtime.reattach` →
+`RestartRunningNodes`) or Failed (`Pipestance.Reset`) — every object of every fork,
+the fork's own metadata included, finished chunks too — and
+`restartLocalJobs`/`restartLocallyQueuedJobs` do nothing. -/
 def resetOk (s : State) (o : Obj) : Bool :=
-  s.phase == .loading && o.r.isJob &&
-  (s.dst o == some .failed || s.dst o == some .queued || s.dst o == some .running ||
-   (s.m o).disk.queued)
+  s.phase == .loading &&
+  if s.full then s.wipedAtLoad.contains o.n
+  else
+    o.r.isJob &&
+    (s.dst o == some .failed || s.dst o == some .queued || s.dst o == some .running ||
+     (s.m o).disk.queued)
 
 def allFresh (s : State) : Bool :=
   (List.range s.nodes.length).all fun n => s.cachedOf n == nodeState s n
@@ -430,7 +441,12 @@ def apply (s : State) : Ev → State
   | .R o x => s.updMeta o (see x)
   | .D o x => s.updMeta o (see x)
   | .U o _ => s.updMeta o unq
-  | .fork n f => { s with forks := aset s.forks n (s.forksOf n ++ [f]) }
+  | .fork n f =>
+      -- re-attaching rebuilds the forks (`RestoreForks`): a disabled mapped call whose
+      -- placeholder fork had been disabled before its forks were known gets fresh forks
+      -- and is, for a moment, unfinished again; remembered in `reopened`
+      { s with forks := aset s.forks n (s.forksOf n ++ [f]),
+               reopened := s.reopened || (s.phase == .loading && s.inc != 0 && nodeDone s n) }
   | .forkorder n l => { s with forks := aset s.forks n l }
   | .mkchunks n f k => { s with nchunks := aset s.nchunks (n, f) k }
   | .launch o =>
@@ -444,7 +460,10 @@ def apply (s : State) : Ev → State
   | .nodestate n st => { s with cached := aset s.cached n st }
   | .killed _ => s
   | .crash => { s with phase := .crashed }
-  | .restart => { s with phase := .loading, inc := s.inc + 1, metas := amap reload s.metas }
+  | .restart =>
+      let s' : State := { s with phase := .loading, inc := s.inc + 1, metas := amap reload s.metas }
+      { s' with wipedAtLoad := (List.range s.nodes.length).filter fun n =>
+          nodeState s' n == .failed || nodeState s' n == .running }
   | .reset o => { s.updMeta o (fun _ => {}) with resets := (o, s.inc) :: s.resets }
 
 /-- one step: the event must be enabled -/
@@ -463,10 +482,18 @@ def replay (s : State) (es : List Ev) : Except (Nat × String) State := replayFr
 /-- the initial state for a graph: no forks yet, nothing on disk, phase `loading` -/
 def init (nodes : List NodeInfo) : State := { nodes := nodes }
 
+/-- the same in `FullStageReset` mode -/
+def initFull (nodes : List NodeInfo) : State := { nodes := nodes, full := true }
+
 /-- accepted histories, as a relation (what the theorems quantify over) -/
 inductive Reach (g : List NodeInfo) : State → Prop where
   | init : Reach g (init g)
   | step {s e} : Reach g s → enabled s e = true → Reach g (apply s e)
+
+/-- accepted histories in `FullStageReset` mode -/
+inductive ReachFull (g : List NodeInfo) : State → Prop where
+  | init : ReachFull g (initFull g)
+  | step {s e} : ReachFull g s → enabled s e = true → ReachFull g (apply s e)
 
 /-! ## printing (driver) -/
 
